@@ -74,7 +74,8 @@ def run(tier, seed, replay=None):
     g = PlanGen(rng)
     n = 150 if tier == "quick" else 4000
     plans = [g.basic() for _ in range(n - n // 4)] + [g.lattice() for _ in range(n // 4)] + \
-        [g.shifted_nested_plan() for _ in range(max(4, n // 25))] + [g.single_member_multi_key_plan() for _ in range(max(2, n // 50))]
+        [g.shifted_nested_plan() for _ in range(max(4, n // 25))] + [g.single_member_multi_key_plan() for _ in range(max(2, n // 50))] + \
+        [g.wildcard_prefix_plan() for _ in range(max(4, n // 25))] + [g.interleaved_keys_plan() for _ in range(max(2, n // 50))]
     rng.shuffle(plans)
     for p_ in plans:
         if add_header_twins(p_, rng, 0.12):
